@@ -67,7 +67,7 @@ func runC10(c *Check, tier string) {
 		return
 	}
 	ruleR10a(c, li)
-	ruleR10b(c, li)
+	ruleR10b(c, li, "R10b", true)
 	ruleR10c(c, li)
 	ruleR10d(c, li)
 }
@@ -161,8 +161,8 @@ func classifyRemovals(c *Check, li *lockerInfo) map[string][]ssa.CallInstruction
 	return out
 }
 
-func ruleR10b(c *Check, li *lockerInfo) {
-	c.Rule("R10b", "stale recovery: for each class of 'no live holder' (unreadable, unparsable, dead PID) the acquire loop removes the lock path and retries without waiting; but each such removal acts on a path whose content was tested earlier (check-then-act): another process can have re-created the file in between; the loop waits only after the liveness probe confirmed a live holder", 7)
+func ruleR10b(c *Check, li *lockerInfo, rule string, reportCheckThenAct bool) {
+	c.Rule(rule, "stale recovery: for each class of 'no live holder' (unreadable, unparsable, dead PID) the acquire loop removes the lock path and retries without waiting; but each such removal acts on a path whose content was tested earlier (check-then-act): another process can have re-created the file in between; the loop waits only after the liveness probe confirmed a live holder", map[bool]int{true: 7, false: 4}[reportCheckThenAct])
 	fn := li.Lock
 	fname := c.P.FuncName(fn)
 	classes := classifyRemovals(c, li)
@@ -170,7 +170,7 @@ func ruleR10b(c *Check, li *lockerInfo) {
 		rms := classes[cls]
 		key := "stale-recovery/" + cls + "/" + fname
 		if len(rms) == 0 {
-			c.Bad("R10b", key, "a lock file that is "+cls+" (left by a process that died, e.g. between the exclusive create and the PID write) is never removed: it blocks every later build forever", c.P.Pos(fn.Pos()))
+			c.Bad(rule, key, "a lock file that is "+cls+" (left by a process that died, e.g. between the exclusive create and the PID write) is never removed: it blocks every later build forever", c.P.Pos(fn.Pos()))
 			continue
 		}
 		// after the removal the loop retries immediately: the header is reached without a blocking wait
@@ -191,9 +191,12 @@ func ruleR10b(c *Check, li *lockerInfo) {
 			r, _ := engine.PathExists(fn, rms[0], toHeader, engine.PathQuery{CutInstr: isWait})
 			blocked = !r
 		}
-		c.Require(!blocked, "R10b", key, "the "+cls+" lock file is removed and acquisition retried at once", "after classifying the lock file as "+cls+" the loop does not retry the acquisition", c.P.InstrPos(rms[0]))
+		c.Require(!blocked, rule, key, "the "+cls+" lock file is removed and acquisition retried at once", "after classifying the lock file as "+cls+" the loop does not retry the acquisition", c.P.InstrPos(rms[0]))
 		for _, rm := range rms {
-			c.Bad("R10b", "stale-removal-check-then-act/"+cls+"/"+fname, "os.Remove(lock path) after testing the file's content is not atomic with that test: "+map[string]string{
+			if !reportCheckThenAct {
+				break
+			}
+			c.Bad(rule, "stale-removal-check-then-act/"+cls+"/"+fname, "os.Remove(lock path) after testing the file's content is not atomic with that test: "+map[string]string{
 				"unreadable": "a contender that finds the file unreadable deletes whatever is there now",
 				"unparsable": "an empty file is the normal state of a lock between the holder's exclusive create and its separate PID write, so a contender deletes a live lock and both proceed",
 				"dead-pid":   "between reading a dead PID and removing the path another contender may already have removed the stale file and created its own lock, which is then deleted",
@@ -246,10 +249,10 @@ func ruleR10b(c *Check, li *lockerInfo) {
 				}
 			}
 		}
-		c.Require(bad == "", "R10b", "wait-only-for-live-holder/"+fname, "every wait in the acquire loop is dominated by the liveness probe answering 'alive'", bad, c.P.InstrPos(li.Open))
+		c.Require(bad == "", rule, "wait-only-for-live-holder/"+fname, "every wait in the acquire loop is dominated by the liveness probe answering 'alive'", bad, c.P.InstrPos(li.Open))
 	}
 	if n := len(classes["unclassified"]); n > 0 {
-		c.Unknown("R10b", "stale-removal/unclassified/"+fname, fmt.Sprintf("%d removal(s) of the lock path inside the acquire loop are guarded by a condition the rule does not recognise", n), c.P.InstrPos(classes["unclassified"][0]))
+		c.Unknown(rule, "stale-removal/unclassified/"+fname, fmt.Sprintf("%d removal(s) of the lock path inside the acquire loop are guarded by a condition the rule does not recognise", n), c.P.InstrPos(classes["unclassified"][0]))
 	}
 }
 
